@@ -123,4 +123,31 @@ example : ((runOld init wRejectedSteps).map fun s => (staleOld (s.socks wU0), (s
     = some (true, some 1, [0]) := by decide
 example : (run init wStaleSteps).isNone = true := by decide
 
+/-! ### request contexts: what deriving them from the config's context would do -/
+
+/-- the machine with request contexts descending from the config's context (`BaseContext` returning the
+    server's `ctx`): cancelling the config cancels its in-flight requests -/
+def effCfgCtx (s : State) : Step → State
+  | .cancelCtx g => { s with cancelled := g :: s.cancelled, ctxLost := lostByCancel true s g ++ s.ctxLost }
+  | st => eff s st
+
+def runCfgCtx (s : State) : List Step → Option State
+  | [] => some s
+  | st :: rest => if enabled s st then runCfgCtx (effCfgCtx s st) rest else none
+
+/-- a request accepted by config 0, a reload to config 1, config 0's context cancelled after its apps were
+    stopped, the request answered afterwards -/
+def wCtxSteps : List Step :=
+  reloadSteps ⟨0, [wT0]⟩ none wSched ++
+  [.accept 7 0 wT0, .begin ⟨1, [wT0]⟩, .bind wT0, .cb .started 1, .swap, .cb .stopping 0, .close 0 wT0, .cancelCtx 0,
+   .cb .cleanup 0, .ret, .complete 7 0]
+
+/-- **Non-vacuity of `inflight_completed_by_acceptor_with_live_context`.**  Same history: the code's
+    machine keeps the request's context; with contexts derived from the config's context the request
+    loses it at the reload (reverse_proxy then abandons the upstream request, the client gets an empty
+    answer) although the connection is never cut. -/
+theorem request_context_from_config_context_fails :
+    ((run init wCtxSteps).map fun s => (s.ctxLost, s.done)) = some ([], [(7, 0)]) ∧
+    ((runCfgCtx init wCtxSteps).map fun s => (s.ctxLost, s.done)) = some ([(7, 0)], [(7, 0)]) := by decide
+
 end CaddyModel.C02
